@@ -42,6 +42,10 @@ impl Drop for Elem {
 
 impl Clone for Elem {
     fn clone(&self) -> Self {
+        if rt::CLONEPOINT.load(Ordering::Relaxed) && rt::tid() != NO_TID && !rt::silent() {
+            // other threads may run while this clone is in flight
+            probe_point();
+        }
         tlog!("clone {}", self.val);
         let k = CLONES.fetch_add(1, Ordering::Relaxed);
         if k == CLONEPANIC.load(Ordering::Relaxed) {
